@@ -5,6 +5,7 @@
 // The model code lives in harness/C09_model.h (included below) so that this file stays readable.
 #include "engines/seqx/seqx.h"
 #include "util/Hashtable.h"
+#include "syslog/SysLog.h"
 #include <vector>
 
 using namespace muscle;
@@ -55,17 +56,18 @@ int main(int argc, char ** argv)
    const bool th = args.Thorough();
    // name, table kind, alphabet mask, start-state set, depth quick, depth thorough, share of the deadline, thorough only
    static const PartSpec parts[] = {
-      {"small",         0, M_SMALL, SS_SMALL,    4, 5, 0.40, false},
-      {"small-full",    0, M_FULL,  SS_SMALLQ,   3, 4, 0.12, false},
-      {"boundary255",   0, M_BOUND, SS_BOUND,    2, 3, 0.18, false},
-      {"boundary65k",   0, M_HUGE,  SS_HUGE,     2, 3, 0.12, true},
+      {"small-core",    0, M_CORE,  SS_SMALL,    4, 5, 0.30, false},
+      {"small",         0, M_SMALL, SS_SMALL,    3, 4, 0.15, false},
+      {"small-full",    0, M_FULL,  SS_SMALLQ,   3, 4, 0.10, false},
+      {"boundary255",   0, M_BOUND, SS_BOUND,    2, 3, 0.15, false},
+      {"boundary65k",   0, M_HUGE,  SS_HUGE,     2, 3, 0.10, true},
       {"ordered-keys",  1, M_ORD,   SS_ORD,      4, 5, 0.07, false},
       {"ordered-values",2, M_ORD,   SS_ORD,      4, 5, 0.08, false},
       {"alias",         0, M_ALIAS, SS_ALIAS,    2, 3, 0.03, false},
    };
    verif::ReplayDoc doc; const verif::ReplayDoc * rp = NULL;
    if (!args.replay.empty()) { if (!doc.Load(args.replay)) { fprintf(stderr, "cannot read %s\n", args.replay.c_str()); return 3; } rp = &doc; }
-   int layout = 1; if (args.kv.count("layout")) layout = atoi(args.kv["layout"].c_str());
+   int layout = 2; if (args.kv.count("layout")) layout = atoi(args.kv["layout"].c_str());
    double used = 0;
    for (size_t i = 0; i < sizeof(parts) / sizeof(parts[0]); i++) {
       const PartSpec & ps = parts[i];
